@@ -625,6 +625,23 @@ func TestC20(t *testing.T) {
 				run := exp[0].Lines[0].Runs[0]
 				pool = append(pool, c20Op{Kind: "read", Format: "ts", Doc: doc, Opts: readOpts{PID: ttxPID, Page: st.pageOption()}, WantAny: []string{fmt.Sprintf("%q", run.Text), fmt.Sprintf("%q", run.AltText)}})
 			}
+			// two scripts whose colours have the same digits, one decimal and one hexadecimal: results known by construction
+			for _, sc := range [][2]string{{"16777215", "Blue:255 Green:255 Red:255"}, {"&H16777215", "Alpha:22 Blue:119 Green:114 Red:21"}} {
+				doc := []byte("[Script Info]\nTitle: t\n\n[V4 Styles]\nFormat: Name, PrimaryColour\nStyle: a," + sc[0] + "\n\n[Events]\nFormat: Start, End, Style, Text\nDialogue: 0:00:01.00,0:00:02.00,a,x\n")
+				pool = append(pool, c20Op{Kind: "read", Format: "ssa", Doc: doc, WantAny: []string{sc[1]}})
+			}
+			// two large lists (thousands of cues) written to WebVTT: big enough for any buffer the writer might keep around
+			for k := 0; k < 2 && rapid.IntRange(0, 2).Draw(rt, "biglists") == 0; k++ {
+				big := genGL(rt, false)
+				if len(big.Cues) > 0 {
+					one := big.Cues[0]
+					big.Cues = nil
+					for i := 0; i < 2100+k; i++ {
+						big.Cues = append(big.Cues, one)
+					}
+					pool = append(pool, c20Op{Kind: "write", Format: "vtt", Spec: &big})
+				}
+			}
 			for _, via := range []bool{true, false} {
 				pool = append(pool, c20Op{Kind: "read", Format: "vtt", Doc: withMap, ViaOpen: via}, c20Op{Kind: "read", Format: "vtt", Doc: without, ViaOpen: via},
 					c20Op{Kind: "read", Format: "ttml", Doc: faulty, ViaOpen: via}, c20Op{Kind: "read", Format: "vtt", Doc: faultyVTT, ViaOpen: via})
